@@ -142,10 +142,11 @@ package v2
 //@ func MessageHandler.FromNet
 //@   lenient
 //@   safety off
+//@   requires io.EOF != io.ErrUnexpectedEOF && io.EOF != nil && io.ErrUnexpectedEOF != nil
 //@   -- C11: a stream of length-prefixed messages is read one frame per call: the frame reader is given the caller's
 //@   -- stream itself (anything buffering in between would read past the frame and lose the messages that follow)
 //@   callsite msgio.NewVarintReaderSize: assert arg0 == r
-//@   modifies alloc, allmaps("map[graphsync.RequestID]message.GraphSyncRequest"), allmaps("map[graphsync.RequestID]message.GraphSyncResponse"), allmaps("map[cid.Cid]blocks.Block")
+//@   modifies lastFrameErr, alloc, allmaps("map[graphsync.RequestID]message.GraphSyncRequest"), allmaps("map[graphsync.RequestID]message.GraphSyncResponse"), allmaps("map[cid.Cid]blocks.Block")
 //@   ensures result1 == nil ==> (forall id graphsync.RequestID :: id in result0.requests ==> ridBytesLen(id) == 16)
 //@   ensures result1 == nil ==> (forall k cid.Cid :: k in result0.blocks ==> blkCid(result0.blocks[k]) == k && isSumOf(k, blkData(result0.blocks[k])))
 
